@@ -649,6 +649,9 @@ class Ctx:
             return True
         if hasattr(v, "sym_truthy"):
             return v.sym_truthy(self)
+        if isinstance(v, L.SymVal):
+            # a symbolic wrapper without a truthiness rule: never fall back to the truthiness of the wrapper OBJECT
+            raise Undecided("truthiness of " + type(v).__name__)
         return bool(v)
 
     # ------------------------------------------------------------------ attribute access
@@ -691,6 +694,9 @@ class Ctx:
             return v.sym_getattr(self, name)
         if isinstance(v, type) and is_repo_class(v):
             return self._class_attr(v, name, None)
+        if isinstance(v, L.SymVal):
+            # a symbolic wrapper without a model for this attribute: never answer with the wrapper's own Python attributes
+            raise Undecided(f"attribute {name} of {type(v).__name__}")
         try:
             return getattr(v, name)
         except AttributeError:
@@ -1967,6 +1973,8 @@ def subscript(ctx, base, idx):
             raise PyRaise(IndexError)
     if isinstance(base, SStr):
         return sstr_subscript(ctx, base, idx)
+    if isinstance(base, L.SymVal):
+        raise Undecided("subscript of " + type(base).__name__)
     if isinstance(idx, slice):
         if contains_sym(idx.start) or contains_sym(idx.stop):
             if hasattr(idx.stop, "sym_slice_of") :
@@ -2033,6 +2041,13 @@ def subscript(ctx, base, idx):
                     return lift_native(ctx, base[k])
             raise PyRaise(KeyError)
         raise Undecided("symbolic index into native container")
+    if contains_sym(idx):
+        if isinstance(base, dict) and len(base) <= 64 and all(isinstance(k, (int, str, bytes)) for k in base):
+            for k in base:
+                if ctx.branch(value_eq(ctx, idx, k)):
+                    return lift_native(ctx, base[k])
+            raise PyRaise(KeyError)
+        raise Undecided("symbolic (non-integer) index into native container")
     try:
         return base[idx]
     except BaseException as ex:
